@@ -350,6 +350,7 @@ func enumerated(c *pkit.Ctx) {
 
 func TestProp(t *testing.T) {
 	c := pkit.Load(prop)
+	corpus(c)
 	enumerated(c)
 	c.Check(t, func(rt *rapid.T) {
 		b := drawProgram(rt, c)
@@ -400,11 +401,19 @@ func TestReplay(t *testing.T) {
 	if dir == "" {
 		t.Skip("no replay dir")
 	}
-	_, files, err := pkit.ReadReplay(dir)
+	meta, files, err := pkit.ReadReplay(dir)
 	if err != nil {
 		t.Fatal(err)
 	}
 	c := pkit.Load(prop)
+	if pkg, ok := meta["corpus_package"].(string); ok && pkg != "" {
+		corpusOnly = pkg
+		corpus(c)
+		if len(corpusFailures) > 0 {
+			t.Fatalf("still fails: %s", strings.Join(corpusFailures, "\n"))
+		}
+		return
+	}
 	cd := c.CaseDir()
 	defer os.RemoveAll(cd)
 	delete(files, "p/"+gorun.DerivedFile)
